@@ -29,15 +29,21 @@ def _alarm(signum, frame):
     raise Budget()
 
 
-BUDGET_S = 2.0
+BUDGET_S = 2.0           # CPU seconds of this process (user + system): independent of how loaded the machine is
+WALL_S = 60.0            # wall-clock backstop, for a call that blocks without computing
 
 
 def with_budget(f):
+    """run f under the time budget; Budget is raised when it is exceeded.  The budget is CPU time (ITIMER_PROF): a wall-clock
+    budget reported terminating calls as divergent when several checks shared the machine (a false alarm, DESIGN 0.7)."""
+    signal.signal(signal.SIGPROF, _alarm)
     signal.signal(signal.SIGALRM, _alarm)
-    signal.setitimer(signal.ITIMER_REAL, BUDGET_S)
+    signal.setitimer(signal.ITIMER_PROF, BUDGET_S)
+    signal.setitimer(signal.ITIMER_REAL, WALL_S)
     try:
         return f()
     finally:
+        signal.setitimer(signal.ITIMER_PROF, 0)
         signal.setitimer(signal.ITIMER_REAL, 0)
 
 
